@@ -5,6 +5,7 @@ import (
 	"bytes"
 	"fmt"
 	"net"
+	"net/http"
 	"os"
 	"os/exec"
 	"path/filepath"
@@ -39,6 +40,7 @@ type hist struct {
 	id      int
 	dir     string
 	p1, p2  int
+	backend string       // harness backend of the proxied site p ("" = no such site)
 	occ     net.Listener // a port the harness occupies (listen failures)
 	occPort int
 }
@@ -62,6 +64,11 @@ func (h *hist) valid(n int) string {
 		// (an access log per site: a request that is still in flight when its instance is
 		// replaced comes to write its line after that instance's log has been closed)
 		fmt.Fprintf(&b, "http://%s.test:%d {\n root %s\n header / X-Verif-Config %d\n header / X-Verif-Site %s\n log / %s\n}\n", s.name, s.port, h.cfgDir(n), n, s.name, filepath.Join(h.dir, "access-"+s.name+".log"))
+	}
+	if h.backend != "" {
+		// a proxied site with an active health check whose probe takes a quarter of a
+		// second: a new instance serves from its first request on, checked or not
+		fmt.Fprintf(&b, "http://p.test:%d {\n proxy / %s {\n  header_upstream X-Cfg %d\n  health_check /health\n  health_check_interval 5s\n  health_check_timeout 3s\n }\n header / X-Verif-Config %d\n header / X-Verif-Site p\n}\n", h.p1, h.backend, n, n)
 	}
 	return b.String()
 }
@@ -89,6 +96,42 @@ func (h *hist) invalid(kind string, n int) string {
 		return b.String() + fmt.Sprintf("http://e.test:%d {\n root %s\n}\n", h.occPort, h.cfgDir(n))
 	}
 	return "{"
+}
+
+// the backend of the proxied site: it serves the file of the configuration named
+// in X-Cfg (set by that configuration's proxy block); its health endpoint is slow.
+var (
+	backendOnce sync.Once
+	backendLn   net.Listener
+)
+
+func backendAddr() string {
+	backendOnce.Do(func() {
+		ln, err := net.Listen("tcp", "127.0.0.1:0")
+		if err != nil {
+			return
+		}
+		backendLn = ln
+		go http.Serve(ln, http.HandlerFunc(func(w http.ResponseWriter, r *http.Request) {
+			if r.URL.Path == "/health" {
+				time.Sleep(250 * time.Millisecond)
+				w.WriteHeader(200)
+				return
+			}
+			n, _ := strconv.Atoi(r.Header.Get("X-Cfg"))
+			for k := range files {
+				if r.URL.Path == "/"+files[k].name {
+					w.Write(bodyFor(n, k))
+					return
+				}
+			}
+			w.WriteHeader(404)
+		}))
+	})
+	if backendLn == nil {
+		return ""
+	}
+	return "http://" + backendLn.Addr().String()
 }
 
 var invalidKinds = []string{"parse", "setup", "missing-import", "startup-callback", "listen"}
@@ -171,7 +214,7 @@ func run(c *lib.Ctx) {
 func runHistory(c *lib.Ctx, hid, nReloads, W int) {
 	rng := c.Rng(fmt.Sprintf("c07-h%d", hid))
 	ports := lib.FreePorts(2)
-	h := &hist{id: hid, dir: filepath.Join(c.Dir, fmt.Sprintf("h%d", hid)), p1: ports[0], p2: ports[1]}
+	h := &hist{id: hid, dir: filepath.Join(c.Dir, fmt.Sprintf("h%d", hid)), p1: ports[0], p2: ports[1], backend: backendAddr()}
 	os.MkdirAll(h.dir, 0o755)
 	occ, err := net.Listen("tcp", "0.0.0.0:0")
 	if err != nil {
@@ -239,7 +282,7 @@ func runHistory(c *lib.Ctx, hid, nReloads, W int) {
 	sites := []struct {
 		name string
 		port int
-	}{{"a", h.p1}, {"b", h.p1}, {"c", h.p2}}
+	}{{"a", h.p1}, {"b", h.p1}, {"c", h.p2}, {"p", h.p1}}
 	for w := 0; w < W; w++ {
 		wg.Add(1)
 		go func(w int) {
